@@ -57,14 +57,14 @@ fn bounds_for(prop: &str, tier: &str, th: &Theory) -> Bounds {
         max_defines: m("max_defines", if thorough { 2 } else { 1 }) as usize,
         max_closes: if thorough { 3 } else { 2 },
         state_cap: envu("VERIF_STATE_CAP", if thorough { 400_000 } else { 150_000 }) as usize,
-        trans_cap: envu("VERIF_TRANS_CAP", if thorough { 600_000 } else { 50_000 }) as usize,
+        trans_cap: envu("VERIF_TRANS_CAP", if thorough { 600_000 } else { 30_000 }) as usize,
         wall_cap_s: envu("VERIF_THEORY_WALL", if thorough { 1800 } else { 120 }),
         close_until: prop == "C07",
     };
     if th.meta.get("sweep").is_some() {
         // corpus S: many small theories, each with a small deterministic budget
         b.depth = if thorough { m("depth_thorough", 4) } else { m("depth_quick", 3) } as usize;
-        b.trans_cap = envu("VERIF_SWEEP_TRANS_CAP", if thorough { 60_000 } else { 8_000 }) as usize;
+        b.trans_cap = envu("VERIF_SWEEP_TRANS_CAP", if thorough { 60_000 } else { 6_000 }) as usize;
         b.max_closes = 2;
     }
     if let Ok(d) = std::env::var("VERIF_DEPTH") { b.depth = d.parse().unwrap(); }
